@@ -16,7 +16,7 @@ pub const FLOORS: &[&str] = &[
     "two_loop_revisit", "removed_breakpoint_passed", "resume:continue", "resume:step", "resume:si",
     "resume:so", "loc:abs", "loc:label", "loc:pc", "break_before_first", "break_after_last",
     "break_doubled", "nondefault_origin", "trace_invariant_checked", "origin_below_statement_count", "pause_at_break_outside_image",
-    "reset_between_list_change_and_resume", "many_breakpoints", "break_with_label", "break_with_label_after_last", "pc_relative_breakpoint_after_eval_moved_the_pc", "breakpoints_a_power_of_two_apart",
+    "reset_between_list_change_and_resume", "many_breakpoints", "break_with_label", "break_with_label_after_last", "pc_relative_breakpoint_after_eval_moved_the_pc", "breakpoints_a_power_of_two_apart", "word_under_a_breakpoint_patched",
 ];
 
 struct Loopy {
@@ -498,6 +498,18 @@ fn random_case(seed: u64, i: u64) -> CaseOut {
             8 => Cmd::BreakRemoveLoc(random_loc(&mut rng, &img)),
             _ => Cmd::BreakList,
         });
+    }
+    // the instruction under a breakpoint is patched with `move`: the breakpoint marks the address, whatever it holds
+    if rng.chance(1, 4) {
+        let adds: Vec<(usize, u16)> = cmds.iter().enumerate().filter_map(|(k, c)| match c { Cmd::BreakAdd(a) => Some((k, *a)), _ => None }).collect();
+        let target = if let Some((k, a)) = adds.first() { Some((*k + 1, *a)) } else { img.breaks.first().map(|b| (0usize, img.origin().wrapping_add(*b))) };
+        if let Some((at, a)) = target {
+            if a >= img.origin() && a < 0xFE00 {
+                cmds.insert(at, Cmd::MoveMem(a, *rng.pick(&[0x1021u16, 0x5020, 0x1DA1, 0x927F])));
+                cmds.insert(at + 1, Cmd::BreakList);
+                out.class("word_under_a_breakpoint_patched");
+            }
+        }
     }
     // an `eval` that moves the PC, then a breakpoint given relative to the PC: `^k` means the PC as it is now
     let near: Vec<(String, usize)> = img.labels.iter().filter(|(_, idx)| *idx < 200).cloned().collect();
